@@ -755,6 +755,11 @@ func (cr *c05Run) combo(qy *c05Query, st [][2]string, path string, B, k int, coq
 		cr.c5lStmtCase(qy, qa, st, path, B, k, runs[key{true, false, true}], runs[key{true, false, false}],
 			runs[key{true, true, true}], runs[key{true, true, false}])
 	}
+	// ---- text level (harness/c05text.go): both texts through the text twin, expand_stmt through the twin
+	if coq && (k == 0 || qy.kind != "plain") {
+		cr.c05TextCase(qy, qa, qe, st, path, B, k, runs[key{true, false, false}], runs[key{true, true, false}],
+			runs[key{false, false, false}], runs[key{false, true, false}])
+	}
 	// ---- the chunk caches: ExecuteBatch sequences on one context, and ProjectionPlan.Batch drains
 	if modelled && proj != nil && wexpr != nil {
 		cr.vecCases(qa, proj, wexpr, st, B, rp, namesTerm, fieldsTerm, whereTerm, true,
@@ -1118,7 +1123,7 @@ func runC05(c *runCtx) error {
 	// (the shared generator's streams for seeds s and s+1 are the same stream shifted by one draw:
 	// spread the seeds far apart)
 	r := newRng(c.seed*1000003 + 0xC05)
-	header := "From Coq Require Import List String ZArith.\nFrom KV Require Import Base.Bytes Model.Ast Model.Value Model.SelectPlans Corr.EvalCommon Corr.C03Stmt Corr.C05.\nFrom KV Require Model.Order Spec.Group.\nImport C05.Vec.\nImport C05.Stmt.\nImport ListNotations.\nOpen Scope string_scope.\n"
+	header := "From Coq Require Import List String ZArith.\nFrom KV Require Import Base.Bytes Model.Ast Model.Value Model.SelectPlans Corr.EvalCommon Corr.C03Stmt Corr.C05.\nFrom KV Require Model.Order Spec.Group.\nFrom KV Require Corr.C05Text.\nImport C05.Vec.\nImport C05.Stmt.\nImport C05.Text.\nImport ListNotations.\nOpen Scope string_scope.\n"
 	e := newEmitter(c.out, "C05", header, 150)
 	e.m.Rule = "24 fixed statement shapes (aliases used in WHERE, in join/ilist/list arguments, under !, as IN-list items and BETWEEN bounds, under [i], alias of alias, use before definition, a name defined twice, ORDER BY, LIMIT, GROUP BY with aggregates of aliases, and their combinations: every plan shape of buildFinalPlan) x batch size B in {1,2,3,32} x stores whose first k scanned pairs fail the filter for every k in 0..B+1 (B=32, quick tier: k in {0,1,2,31,32,33}) followed by an accepted, a rejected, an accepted and 0-2 mixed pairs x access paths {full, prefix, range, point reads}; plus seeded random statements with 1-3 aliased fields over typed definitions; every combination is run row-at-a-time and in batches, cache on and off, with the names and with the definitions written out; non-trivial = some pair rejected and some returned, with an alias used in WHERE; distinct = distinct (statement, store) terms; every ORDER BY / LIMIT / GROUP BY combination additionally as a CStmt case (Model/CachePlans.v: the composed twins with the cache switch against the four drains row/batch x cache on/off); 4 statements whose aggregate select field also uses a field name, B in {1,2,32} (direct verdict only)"
 	cr := &c05Run{e: e}
